@@ -11,7 +11,7 @@ PID = "C07"
 MODULE = "Check.C07"
 VERDICT = "verdict_C07"
 CLASS_BITS = {16: "K_closed_file", 32: "K_order_sensitive_import"}
-NCASES = (36, 1000)
+NCASES = (90, 1000)
 RULE = ("(A) generator H histories with document closes interleaved: after every state-changing operation the live (warm) "
         "database and, per query, a database that replays the same operations and is asked only then (cold) answer "
         "go-to-definition, resolution, available fixtures, imported names, references; (B) workspaces of generator W "
